@@ -3,3 +3,7 @@ import EV.Gen.Consts
 import EV.Model.Wire
 import EV.Model.Notif
 import EV.Props.C20
+import EV.Model.Index
+import EV.Spec.Chain
+import EV.Model.Merkle
+import EV.Props.C12
